@@ -4,6 +4,11 @@ Streams (model `Wpull.HttpWire` vs the real code in the wpull tree under test):
   decode   (shared with C08) lock-step co-simulation of Stream.read_response/read_body;
            for C04 the compared component is `notified` = concatenation of the
            notify_read data = what the recorder appends to the response block
+  overlap  two REAL WebSessions over ONE real ConnectionPool (worker A still inside its `with`
+           block, its connection recycled, while worker B reads on that connection)   oracle only
+  tworuns  run 1 writes WARC + CDX, run 2 loads the CDX through the REAL WARCVisitsTask into a
+           REAL SQLite URL table (--warc-dedup), digests on/off in either run, page
+           changed/unchanged; the model decides revisit-or-response (`http dedup`)
   warc     the REAL Client/Session with the REAL WARCRecorder listening to it, against a
            reactive in-memory server; the WARC file is parsed by an independent strict
            reader; request/response blocks are compared byte for byte with what the fake
@@ -21,7 +26,9 @@ from engines import c08
 
 RULE = ('warc: sequences of 2-5 exchanges (message grammar of C08: header formattings, Content-Length, chunked with '
         'extensions and trailers, read-until-close, overrun/surplus, content codings, no-body statuses, HEAD, POST with '
-        'a body) x Stream options x a de-duplication table answering "seen" for some URLs (revisit records) x random segmentations x {plain, gzip} x {digests on, off} WARC files, read strictly by Content-Length; decode: as C08 with the notified bytes compared. '
+        'a body) x Stream options x status codes x whitespace-only / folded header lines x a de-duplication table answering "seen" for some URLs (revisit records) x random segmentations x {plain, gzip} x {digests on, off} WARC files, read strictly by Content-Length; decode: as C08 with the notified bytes compared. '
+        'overlap: 5 response shapes x 8 cut positions x {A leaves its web session before / while / after B reads} x pool limit; tworuns: '
+        '{digests on, off}^2 x {page unchanged, same payload under another header block, changed} through WARCVisitsTask + SQLiteURLTable. '
         'non-trivial = at least one exchange completed; distinct by (exchange bytes, segmentation, request)')
 TRUSTED = c08.TRUSTED + ['harness WARC reader (WARC/1.0 framing by Content-Length, per-record gzip members)']
 ASSUMPTIONS = c08.ASSUMPTIONS + ['the URL table (--warc-dedup) is a stub that reports chosen URLs as seen; digests and '
@@ -196,10 +203,15 @@ def check_warc(ctx, case, exs, results, recs, opts=(True, False)):
                 ctx.fail('revisit-missing', '_record_revisit', case, 'exchange %d: the table reported the payload as seen but a %s '
                          'record was written' % (k, pf.get('warc-type')))
             want = e['msg'].head
-            if pf.get('warc-refers-to') != REVISIT_ID:
+            if pf.get('warc-refers-to') != e.get('refers', REVISIT_ID):
                 ctx.fail('revisit-fields', '_record_revisit', case, 'exchange %d: WARC-Refers-To %r' % (k, pf.get('warc-refers-to')))
+        elif pf.get('warc-type') == 'revisit':
+            ctx.fail('revisit-without-identity', '_record_revisit', case,
+                     'exchange %d: a revisit record (block cut down to %d of %d bytes) although no earlier capture with the same '
+                     'payload digest is known%s' % (k, len(pb), len(want), e.get('why', '')))
+            return
         elif pf.get('warc-type') != 'response':
-            ctx.fail('record-sequence', 'HTTPWARCRecorderSession', case, 'exchange %d: %s record for a payload the table does not know'
+            ctx.fail('record-sequence', 'HTTPWARCRecorderSession', case, 'exchange %d: %s record where a response record belongs'
                      % (k, pf.get('warc-type')))
         if pb != want:
             d = next((j for j, (a, b) in enumerate(zip(pb, want)) if a != b), min(len(pb), len(want)))
@@ -243,9 +255,240 @@ def fixed_dedup_sequences():
     return out
 
 
+# ------------------------------------------------------------------ two runs: --warc-cdx, then --warc-dedup
+def gen_tworuns(rng):
+    exs1 = c08.gen_sequence(rng)
+    for e in exs1:
+        e['surplus_kept'] = e['surplus']
+    exs2 = []
+    for k, e in enumerate(exs1):
+        m = e['msg']
+        r = rng.random()
+        if r < 0.45:
+            m2, how = m, 'unchanged'
+        elif r < 0.7:
+            # same payload bytes, other header block
+            m2 = H.Msg.from_case(m.case())
+            nl = m2.head.index(b'\n') + 1
+            m2.head = m2.head[:nl] + b'X-Run: 2' + (b'\r\n' if m2.head[nl - 2:nl] == b'\r\n' else b'\n') + m2.head[nl:]
+            how = 'unchanged-payload'
+        else:
+            while True:
+                m2 = H.gen_message(rng, allow_malformed=False)
+                if m2.wf and m2.coding != 'gzip-bad' and len(m2.message) < 20000:
+                    break
+            how = 'changed'
+        eof = m2.framing == 'close' or rng.random() < 0.15
+        exs2.append({'segs': fakenet.segment(m2.message, fakenet.random_cuts(rng, len(m2.message)) if len(m2.message) <= 1500 else []),
+                     'eof': eof, 'method': m2.method if how == 'changed' else e['method'], 'version': m2.version if how == 'changed' else e['version'],
+                     'path': e['path'], 'msg': m2, 'surplus': b'', 'marker': b'', 'how': how})
+    return {'stream': 'tworuns', 'd1': rng.random() < 0.6, 'd2': rng.random() < 0.6, 'exs1': exs1, 'exs2': exs2}
+
+
+def _case_exs(exs):
+    return [{'segs': e['segs'], 'eof': e['eof'], 'method': e['method'], 'version': e['version'], 'path': e['path'],
+             'msg': e['msg'].case(), 'surplus': e['surplus'], 'how': e.get('how')} for e in exs]
+
+
+def stream_tworuns(ctx, cases):
+    """State carried from an earlier run: run 1 writes WARC + CDX (digests on/off); run 2 loads that
+    CDX through the REAL WARCVisitsTask into a REAL SQLite URL table and fetches the same URLs
+    (page unchanged / changed, digests on/off).  Oracle: a revisit record is written only if the
+    payload digest recorded by run 1 equals the digest of what the server sent now — never when
+    either run has digests off; otherwise the response record holds the whole message."""
+    import types
+    from wpull.warc.recorder import WARCRecorderParams
+    from wpull.application.tasks.warc import WARCVisitsTask
+    from wpull.database.sqltable import SQLiteURLTable
+    import base64
+    import hashlib
+    tmp = tempfile.mkdtemp(prefix='c04t-')
+    mlines, mmeta = [], []
+    try:
+        for i, c in enumerate(cases):
+            case = {'stream': 'tworuns', 'd1': c['d1'], 'd2': c['d2'], 'exs1': _case_exs(c['exs1']), 'exs2': _case_exs(c['exs2'])}
+            p1, p2 = os.path.join(tmp, 'r1_%d' % i), os.path.join(tmp, 'r2_%d' % i)
+            params1 = WARCRecorderParams(compress=i % 2 == 1, log=False, temp_dir=tmp, software_string='verif', digests=c['d1'], cdx=True)
+            res1, _ = H.real_session_sequence(c['exs1'], recorder_params={'filename': p1, 'params': params1})
+            ext = '.warc.gz' if i % 2 == 1 else '.warc'
+            try:
+                recs1 = [(f, b) for f, b in H.read_warc(p1 + ext) if f.get('warc-type') != 'warcinfo']
+            except H.WarcFormatError as err:
+                ctx.fail('record-length', 'WARCRecorder', case, str(err))
+                continue
+            first = {}     # URL -> (record id, payload bytes) of run 1's response record
+            for f, b in recs1:
+                if f.get('warc-type') == 'response':
+                    first.setdefault(f.get('warc-target-uri'), f.get('warc-record-id'))
+            table = SQLiteURLTable()
+            with open(p1 + '.cdx', 'rb') as cdx:
+                app = types.SimpleNamespace(args=types.SimpleNamespace(warc_dedup=cdx, local_encoding=None),
+                                            factory={'URLTable': table})
+                H.arun(compat._ensure(WARCVisitsTask().process(app)))
+            params2 = WARCRecorderParams(compress=False, log=False, temp_dir=tmp, software_string='verif', digests=c['d2'],
+                                         url_table=table)
+            res2, _ = H.real_session_sequence(c['exs2'], recorder_params={'filename': p2, 'params': params2})
+            try:
+                recs2 = [(f, b) for f, b in H.read_warc(p2 + '.warc') if f.get('warc-type') != 'warcinfo']
+            except H.WarcFormatError as err:
+                kind = 'revisit-length' if err.rtype == 'revisit' else 'record-length'
+                ctx.fail(kind, 'WARCRecorder', case, str(err))
+                continue
+            finally:
+                for q in (p1 + ext, p1 + '.cdx', p2 + '.warc'):
+                    if os.path.exists(q):
+                        os.remove(q)
+            nrev = 0
+            for k, e2 in enumerate(c['exs2']):
+                e1 = c['exs1'][k]
+                url = 'http://h' + e2['path']
+                ok1 = k < len(res1) and res1[k]['x'].outcome == 'ok' and url in first
+                same = e1['msg'].framed + e1['surplus'] * H.relaxed_by_options(e1['msg'], (True, False)) == e2['msg'].framed
+                e2['dedup'] = bool(ok1 and c['d1'] and c['d2'] and same)
+                e2['refers'] = first.get(url)
+                e2['why'] = ' (run 1 digests %s, run 2 digests %s, page %s)' % ('on' if c['d1'] else 'off', 'on' if c['d2'] else 'off', e2['how'])
+                nrev += e2['dedup']
+            check_warc(ctx, case, c['exs2'], res2, recs2)
+            # the model's dedup decision (revisitHit) vs the record type actually written
+            written = {f.get('warc-target-uri'): f.get('warc-type') for f, b in recs2 if f.get('warc-type') in ('response', 'revisit')}
+            for k, e2 in enumerate(c['exs2']):
+                url = 'http://h' + e2['path']
+                if url not in written or url not in first:
+                    continue
+                b32 = lambda data: base64.b32encode(hashlib.sha1(data).digest()).decode()
+                e1 = c['exs1'][k]
+                old = enc(b32(e1['msg'].framed)) if c['d1'] else 'N'
+                cur = enc(b32(e2['msg'].framed)) if c['d2'] else 'N'
+                mlines.append('http dedup %s %s' % (old, cur))
+                mmeta.append((case, k, 'T' if written[url] == 'revisit' else 'F'))
+            ctx.case(('tworuns', c['d1'], c['d2'], tuple((tuple(e['segs']), e['how']) for e in c['exs2'])),
+                     tags=['tworuns:d1=%s,d2=%s' % (c['d1'], c['d2'])] + ['tworuns:' + e['how'] for e in c['exs2']])
+            ctx.tag('tworuns:revisits-expected', nrev)
+            ctx.tag('tworuns:revisits-written', sum(1 for f, b in recs2 if f.get('warc-type') == 'revisit'))
+        for (case, k, real), rep in zip(mmeta, ctx.model.ask(mlines)):
+            if rep != real:
+                ctx.disagree('tworuns', {'d1': case['d1'], 'd2': case['d2'], 'exchange': k, 'exs2': case['exs2'][k]}, rep, real)
+        if cases:
+            ctx.sample({'stream': 'tworuns', 'cases': len(cases)})
+    finally:
+        shutil.rmtree(tmp, ignore_errors=True)
+
+
+def fixed_tworuns():
+    """all four digest combinations x {unchanged, same payload under another header block, changed}"""
+    out = []
+    for d1 in (True, False):
+        for d2 in (True, False):
+            exs1, exs2 = [], []
+            pages = [(b'HTTP/1.1 200 OK\r\nContent-Length: 11\r\n\r\n', b'hello world', 'length', 'unchanged'),
+                     (b'HTTP/1.1 200 OK\r\nTransfer-Encoding: chunked\r\n\r\n', b'5\r\nhello\r\n0\r\n\r\n', 'chunked', 'unchanged-payload'),
+                     (b'HTTP/1.1 200 OK\r\nContent-Length: 3\r\n\r\n', b'old', 'length', 'changed')]
+            for k, (head, framed, framing, how) in enumerate(pages):
+                m1 = c08._mk(head, framed, framed if framing == 'length' else b'hello', framing=framing)
+                if how == 'unchanged':
+                    m2 = m1
+                elif how == 'unchanged-payload':
+                    m2 = c08._mk(head.replace(b'OK\r\n', b'OK\r\nX-Run: 2\r\n'), framed, m1.payload, framing=framing)
+                else:
+                    m2 = c08._mk(head, b'new', b'new', framing=framing)
+                for exs, m in ((exs1, m1), (exs2, m2)):
+                    exs.append({'segs': [m.message], 'eof': False, 'method': 'GET', 'version': 'HTTP/1.1', 'path': '/p%d' % k,
+                                'msg': m, 'surplus': b'', 'marker': b'', 'how': how})
+            out.append({'stream': 'tworuns', 'd1': d1, 'd2': d2, 'exs1': exs1, 'exs2': exs2})
+    return out
+
+
+# ------------------------------------------------------------------ overlap: two web sessions, one pool
+A_MSG = b'HTTP/1.1 200 OK\r\nContent-Length: 3\r\n\r\nabc'
+
+
+def overlap_cases(rng, extra):
+    body = b'0123456789' * 4
+    shapes = [('close', b'HTTP/1.1 200 OK\r\nX: y\r\n\r\n' + body, True, 'HTTP/1.1'),
+              ('close', b'HTTP/1.0 200 OK\r\n\r\n' + body, True, 'HTTP/1.0'),
+              ('close', b'HTTP/1.1 200 OK\r\nConnection: close\r\n\r\n' + body, True, 'HTTP/1.1'),
+              ('length', b'HTTP/1.1 200 OK\r\nContent-Length: 40\r\n\r\n' + body, False, 'HTTP/1.1'),
+              ('chunked', b'HTTP/1.1 200 OK\r\nTransfer-Encoding: chunked\r\n\r\n14\r\n' + body[:20] + b'\r\n14;x\r\n' + body[20:]
+               + b'\r\n0\r\nT: 1\r\n\r\n', False, 'HTTP/1.1')]
+    cases = []
+    for framing, b_msg, b_eof, b_version in shapes:
+        h = b_msg.index(b'\r\n\r\n') + 4
+        for cut in sorted({0, 5, h - 1, h, h + 1, h + 17, len(b_msg) - 1, len(b_msg)}):
+            for exit_point in ('early', 'mid', 'late'):
+                for limit in (1, 2):
+                    cases.append({'stream': 'overlap', 'a_msg': A_MSG, 'a_eof': False, 'b_msg': b_msg, 'b_eof': b_eof,
+                                  'b_version': b_version, 'b_framing': framing, 'cut': cut, 'exit_point': exit_point, 'limit': limit})
+    for _ in range(extra):
+        framing, b_msg, b_eof, b_version = rng.choice(shapes)
+        cases.append({'stream': 'overlap', 'a_msg': rng.choice([A_MSG, b'HTTP/1.1 200 OK\r\nConnection: close\r\nContent-Length: 3\r\n\r\nabc',
+                                                               b'HTTP/1.1 200 OK\r\nTransfer-Encoding: chunked\r\n\r\n3\r\nabc\r\n0\r\n\r\n']),
+                      'a_eof': rng.random() < 0.2, 'b_msg': b_msg, 'b_eof': b_eof, 'b_version': b_version, 'b_framing': framing,
+                      'cut': rng.randrange(0, len(b_msg) + 1), 'exit_point': rng.choice(['early', 'mid', 'mid', 'late']),
+                      'limit': rng.choice([1, 2, 6])})
+    return cases
+
+
+def stream_overlap(ctx, cases):
+    """Two web sessions over ONE real connection pool: worker A is still inside its `with
+    web_session:` block (its connection already recycled) while worker B reads its response on
+    that same kept-alive connection.  Oracle only (no model): every exchange that is reported
+    complete has exactly one response record, holding the bytes the server sent for it."""
+    from wpull.warc.recorder import WARCRecorderParams
+    tmp = tempfile.mkdtemp(prefix='c04o-')
+    try:
+        for i, case in enumerate(cases):
+            prefix = os.path.join(tmp, 'o%d' % i)
+            params = WARCRecorderParams(compress=False, log=False, temp_dir=tmp, software_string='verif', digests=i % 2 == 0)
+            out = H.real_overlap(case, {'filename': prefix, 'params': params})
+            path = prefix + '.warc'
+            try:
+                records = H.read_warc(path)
+            except H.WarcFormatError as err:
+                ctx.fail('record-length', 'WARCRecorder', case, str(err))
+                continue
+            finally:
+                if os.path.exists(path):
+                    os.remove(path)
+            res = {u: out.get(u, ('missing', None, b'')) for u in ('a', 'b')}
+            ctx.case(('overlap', case['a_msg'], case['a_eof'], case['b_msg'], case['cut'], case['exit_point'], case['limit']),
+                     tags=['overlap:exit=' + case['exit_point'], 'overlap:b=' + case['b_framing'], 'overlap:b-out=' + res['b'][0],
+                           'overlap:same-conn' if len({c for c, p in out['requests']}) == 1 else 'overlap:two-conns'])
+            for u, msg in (('a', case['a_msg']), ('b', case['b_msg'])):
+                blocks = [b for f, b in records if f.get('warc-type') in ('response', 'revisit')
+                          and f.get('warc-target-uri') == 'http://h/' + u]
+                if res[u][0] != 'ok':
+                    if blocks:
+                        ctx.fail('record-sequence', 'HTTPWARCRecorderSession', case, '/%s did not complete (%s) but has a response record' % (u, res[u][0]))
+                    continue
+                if len(blocks) != 1:
+                    ctx.fail('record-sequence', 'HTTPWARCRecorderSession', case, '/%s completed, %d response records' % (u, len(blocks)))
+                elif blocks[0] != msg:
+                    ctx.fail('response-block-not-wire', 'Session.abort' if case['exit_point'] == 'mid' else 'response_data', case,
+                             '/%s was reported complete; its response block has %d bytes, the server sent %d bytes for it '
+                             '(worker A left its web session %s; %d connection(s) closed under a pending read)'
+                             % (u, len(blocks[0]), len(msg), case['exit_point'], out['closed_under_reader']))
+        if cases:
+            ctx.sample({'stream': 'overlap', 'cases': len(cases)})
+    finally:
+        shutil.rmtree(tmp, ignore_errors=True)
+
+
 def replay(ctx, case, kind=None, where=None):
     case = case.get('case', case)
-    if case.get('stream') == 'warc':
+    if case.get('stream') == 'overlap':
+        stream_overlap(ctx, [case])
+    elif case.get('stream') == 'tworuns':
+        c = dict(case)
+        for key in ('exs1', 'exs2'):
+            lst = []
+            for e in case[key]:
+                e = dict(e)
+                e['msg'] = H.Msg.from_case(e['msg'])
+                e['marker'] = b''
+                lst.append(e)
+            c[key] = lst
+        stream_tworuns(ctx, [c])
+    elif case.get('stream') == 'warc':
         exs = []
         for e in case['exchanges']:
             e = dict(e)
@@ -300,6 +543,9 @@ def run(ctx):
         opts = H.OPTS[1 + (i // 4) % 3] if i % 4 >= 2 else (True, False)   # half default, half spread over the other three
         seqs.append((gen_exchanges(wrng, opts, dedup=(i % 5) in (1, 2)), opts))      # 40% of the sequences run with --warc-dedup
     stream_warc(ctx, fixed_dedup_sequences() + seqs)
+    stream_overlap(ctx, overlap_cases(ctx.subrng('overlap'), ctx.scale(60, 1500)))
+    trng = ctx.subrng('tworuns')
+    stream_tworuns(ctx, fixed_tworuns() + [gen_tworuns(trng) for _ in range(ctx.scale(60, 1200))])
 
 
 def search(ctx):
